@@ -178,7 +178,7 @@ func (f *fcgiResponder) handle(c net.Conn) {
 }
 
 var fcgiStatuses = []string{"", "0", "99", "100", "101", "199", "200", "204", "304", "600", "999", "1000", "abc", "200 OK", "404 Not Found", "-1", "-200", "+200", " 200", "200 ", "2 00",
-	"0x10", "1e3", "٢٠٠", strings.Repeat("9", 40), "00200", "4294967496", "18446744073709551816", "200\t", "0 OK", "1000 Too Much"}
+	"007", "099", "-12", "+99", "+07", "-00", "000", "0x10", "1e3", "٢٠٠", strings.Repeat("9", 40), "00200", "4294967496", "18446744073709551816", "200\t", "0 OK", "1000 Too Much"}
 
 func fcgiScripts(rng *lib.Rng, nRandom int) []fcgiScript {
 	var out []fcgiScript
